@@ -437,7 +437,7 @@ fn search_c06(r: &mut Rng, la: bool, iters: usize) -> bool {
 }
 
 fn search_c18(r: &mut Rng, la: bool, iters: usize) -> bool {
-    let bases = ["mktool", "foo-bar", "", "nb", "x-nb1", "é", "-foo", "-", "a--b", "-x-"];
+    let bases = ["mktool", "foo-bar", "", "nb", "x-nb1", "é", "-foo", "-", "a--b", "-x-", "R", "a", "9"];
     for _ in 0..iters {
         let name = match r.below(4) {
             0 => gen_version(r),
@@ -480,6 +480,21 @@ fn search_c18(r: &mut Rng, la: bool, iters: usize) -> bool {
                 let up = format!("p<{}nb{}", prefix, val as i128 + 1);
                 if !prefix.contains(['<', '>', '{', '}']) && real_pattern_match(&up, &format!("p-{}", v)) != Some(true) && val < i64::MAX {
                     witness("pattern_match", &[("pattern", up), ("pkg", format!("p-{}", v))], "true", "false");
+                    return false;
+                }
+            }
+        }
+        // the revision the comparison uses is the LAST nb group (same oracle as C01), also with several groups in one version
+        if name.contains('-') && v.matches("nb").count() >= 1 && !v.contains(['<', '>', '{', '}']) {
+            let v2 = gen_version(r);
+            if !v2.contains(['<', '>', '{', '}']) {
+                let (ops, op) = r.pick(OPS);
+                let pat = format!("p{}{}", ops, v2);
+                let nm = format!("p-{}", v);
+                let e = holds(op, cmp3(&tokens(&v, la), &tokens(&v2, la)));
+                let a = real_pattern_match(&pat, &nm);
+                if a != Some(e) {
+                    witness("pattern_match", &[("pattern", pat), ("pkg", nm)], &e.to_string(), &ob(a));
                     return false;
                 }
             }
@@ -831,7 +846,7 @@ fn gen_dline(r: &mut Rng) -> Vec<u8> {
         0 => l.extend_from_slice(b"# a comment (x) = y"),
         1 => {}
         2 => l.extend_from_slice(r.pick(&[b"$NetBSD: distinfo,v 1.2 2024/01/01 00:00:00 x\xe9 Exp $".as_slice(), b"$NetBSD: a\rb $", b"$NetBSD: # not a comment $", b"$NetBSD: x $\r", b"$NetBSD$", b"$NetBSD:x $"])),
-        3 => l.extend_from_slice(r.pick(&[b"SHA1".as_slice(), b"SHA1 (foo)", b"Size (foo) = 12x bytes", b"CRC32 (foo) = 1234", b"SHA1 foo = abc", b"SHA1 (foo) XX abc", b"Size (foo) = -1 bytes", b"\xff\xfe (foo) = 1", b"SHA1 (foo = abc", b"=", b"SHA1 () = x"])),
+        3 => l.extend_from_slice(r.pick(&[b"SHA1".as_slice(), b"SHA1 (foo)", b"Size (foo) = 12x bytes", b"CRC32 (foo) = 1234", b"SHA1 foo = abc", b"SHA1 (foo) XX abc", b"Size (foo) = -1 bytes", b"\xff\xfe (foo) = 1", b"SHA1 (foo = abc", b"=", b"SHA1 () = x", b"SHA1 (foo) =", b"Size (foo) =", b"SHA1 (bar) = ", b"( ) = x", b"SHA1 ( = x", b"SHA1 ) = x", b"Size ("])),
         4 | 5 => { l.extend_from_slice(b"Size"); l.extend_from_slice(r.pick(&ws)); l.push(b'('); l.extend_from_slice(name); l.push(b')'); l.extend_from_slice(r.pick(&ws)); l.push(b'='); l.extend_from_slice(r.pick(&ws));
                    l.extend_from_slice(format!("{}", [0u64, 12, 4096, u64::MAX][r.below(4)]).as_bytes()); l.extend_from_slice(b" bytes"); }
         _ => { let a = r.pick(&["SHA1", "sha256", "BLAKE2s", "RMD160", "MD5", "SHA512", "Sha1"]); l.extend_from_slice(a.as_bytes()); l.extend_from_slice(r.pick(&ws)); l.push(b'('); l.extend_from_slice(name); l.push(b')');
@@ -887,7 +902,9 @@ fn search_c10(r: &mut Rng, iters: usize) -> bool {
         for e in d.dist.iter().chain(d.patch.iter()) {
             let sums: Vec<Checksum> = e.sums.iter().map(|(a, h)| Checksum::new(a.parse::<Digest>().unwrap(), h.clone())).collect();
             let p = PathBuf::from(std::ffi::OsStr::from_bytes(&e.name));
-            api.insert(Entry::new(&p, &p, sums, e.size));
+            // the entry's kind is decided by its file NAME; the path it was read from (a directory, another spelling) is irrelevant
+            let fp = match r.below(3) { 0 => p.clone(), 1 => PathBuf::from("/usr/pkgsrc/distfiles"), _ => PathBuf::from("work/.extract/") };
+            api.insert(Entry::new(&p, &fp, sums, e.size));
         }
         let written = api.as_bytes();
         let re = real_dinfo(&Distinfo::from_bytes(&written));
@@ -991,6 +1008,22 @@ fn search_c12(r: &mut Rng, iters: usize) -> bool {
                 }
             }
             if !matches!(di.verify_size(dir.join("nope/zzz")), Err(DistinfoError::NotFound)) { witness("verify_size", &[("file", "nope/zzz".into()), ("hexcontent", "".into()), ("recorded", "".into())], "NotFound", "other"); ok = false; break 'outer; }
+        }
+    }
+    if ok {
+        // a distinfo PARSED from text (size line before the checksum line, and the other way round) verifies a patch with '$NetBSD' lines
+        let content: &[u8] = b"$NetBSD: patch-zz,v 1.1 $\n--- a\n+++ b\n@@ -1 +1 @@\n-x\n+y $NetBSD$\nkept\n";
+        let filtered: &[u8] = b"--- a\n+++ b\n@@ -1 +1 @@\n-x\nkept\n";
+        std::fs::write(dir.join("patch-zz"), content).unwrap();
+        let h = Digest::SHA1.hash_file(&mut &filtered[..]).unwrap();
+        for text in [format!("Size (patch-zz) = {} bytes\nSHA1 (patch-zz) = {}\n", content.len(), h), format!("SHA1 (patch-zz) = {}\nSize (patch-zz) = {} bytes\n", h, content.len())] {
+            let di = Distinfo::from_bytes(text.as_bytes());
+            let r = di.verify_checksum(dir.join("patch-zz"), Digest::SHA1);
+            if !matches!(r, Ok(Digest::SHA1)) {
+                witness("verify_parsed_patch", &[("hextext", hex(text.as_bytes()))], "Ok(SHA1)", &format!("{:?}", r.map_err(|e| e.to_string())));
+                ok = false;
+                break;
+            }
         }
     }
     if ok {
@@ -1118,6 +1151,7 @@ fn run_witness(args: &[String]) -> i32 {
         }
         "scanindex" => format!("{:?}", more::scan_real(&unhexb(&g("hextext")), g("failat").parse().ok())),
         "no_panic" => more::replay_no_panic(&g("entry"), &unhexb(&g("hexinput"))),
+        "verify_parsed_patch" => "re-run the search to reproduce (needs the scratch file)".into(),
         "find_entry_sequence" => "sequence-dependent (re-run the search to reproduce)".into(),
         "order_law" => {
             // re-evaluate the law on the real code
